@@ -268,10 +268,17 @@ class Server(Acceptor):
         self.serviceAccepts()  # populate .axes
         while self.axes:
             cs, ca = self.axes.popleft()
-            if ca != cs.getpeername() or self.eha[1] != cs.getsockname()[1]: # only port on eha
+            try:
+                peername = cs.getpeername()
+                sockname = cs.getsockname()
+            except OSError as ex:  # peer already gone, e.g. reset before accepted
+                logger.error("Dropping accepted socket from %s.\n%s\n", ca, ex)
+                cs.close()
+                continue
+            if ca != peername or self.eha[1] != sockname[1]: # only port on eha
                 raise ValueError("Accepted socket host addresses malformed for "
                                  "peer. ca {0} != {1} or ha port {2} != {3}\n"
-                                 "".format(ca, cs.getpeername(), self.eha, cs.getsockname()))
+                                 "".format(ca, peername, self.eha, sockname))
             remoter = Remoter(tymth=self.tymth,
                               ha=cs.getsockname(),
                               ca=ca,
@@ -560,10 +567,17 @@ class ServerTls(Server):
         self.serviceAccepts()  # populate .axes
         while self.axes:
             cs, ca = self.axes.popleft()
-            if ca != cs.getpeername() or self.eha[1] != cs.getsockname()[1]: # only port on eha
+            try:
+                peername = cs.getpeername()
+                sockname = cs.getsockname()
+            except OSError as ex:  # peer already gone, e.g. reset before accepted
+                logger.error("Dropping accepted socket from %s.\n%s\n", ca, ex)
+                cs.close()
+                continue
+            if ca != peername or self.eha[1] != sockname[1]: # only port on eha
                 raise ValueError("Accepted socket host addresses malformed for "
                                  "peer. ca {0} != {1} or ha port {2} != {3}\n"
-                                 "".format(ca, cs.getpeername(), self.eha, cs.getsockname()))
+                                 "".format(ca, peername, self.eha, sockname))
             remoter = RemoterTls(tymth=self.tymth,
                                  ha=cs.getsockname(),
                                  ca=ca,
